@@ -2,6 +2,8 @@ package value
 
 import (
 	"sync"
+
+	"github.com/mithrandie/csvq/lib/vhook"
 )
 
 var stringPool = &sync.Pool{
@@ -29,18 +31,30 @@ var datetimePool = &sync.Pool{
 }
 
 func getString() *String {
+	if v := vhook.PoolGet("string"); v != nil {
+		return v.(*String)
+	}
 	return stringPool.Get().(*String)
 }
 
 func getInteger() *Integer {
+	if v := vhook.PoolGet("integer"); v != nil {
+		return v.(*Integer)
+	}
 	return integerPool.Get().(*Integer)
 }
 
 func getFloat() *Float {
+	if v := vhook.PoolGet("float"); v != nil {
+		return v.(*Float)
+	}
 	return floatPool.Get().(*Float)
 }
 
 func getDatetime() *Datetime {
+	if v := vhook.PoolGet("datetime"); v != nil {
+		return v.(*Datetime)
+	}
 	return datetimePool.Get().(*Datetime)
 }
 
@@ -48,12 +62,24 @@ func Discard(p Primary) {
 	if p != nil {
 		switch p.(type) {
 		case *String:
+			if vhook.PoolPut("string", p) {
+				return
+			}
 			stringPool.Put(p)
 		case *Integer:
+			if vhook.PoolPut("integer", p) {
+				return
+			}
 			integerPool.Put(p)
 		case *Float:
+			if vhook.PoolPut("float", p) {
+				return
+			}
 			floatPool.Put(p)
 		case *Datetime:
+			if vhook.PoolPut("datetime", p) {
+				return
+			}
 			datetimePool.Put(p)
 		}
 	}
